@@ -169,3 +169,95 @@ pub fn alias_twin(toks: &[T]) -> Option<Vec<T>> {
     }
     if swapped { Some(out) } else { None }
 }
+
+// ---------------------------------------------------------------------------------------------- C11
+use rooc::domain_declaration::{Variable, VariablesDomainDeclaration};
+use rooc::math_enums::PreVariableType;
+use rooc::model_transformer::VariableKind;
+use rooc::pre_model::PreModel;
+use rooc::{Comparison, IterableSet, OptimizationType, PreConstraint};
+
+/// full `PreExp` (every variant) with numbers as Rust displays them
+pub fn pre_exp_full(e: &PreExp) -> String {
+    let list = |head: &str, name: &str, es: &[PreExp]| {
+        let mut s = format!("({} {}", head, sx::q(name));
+        for a in es { s.push(' '); s.push_str(&pre_exp_full(a)); }
+        s.push(')');
+        s
+    };
+    match e {
+        PreExp::Primitive(p) => match p.value() {
+            Primitive::Integer(i) if *i >= 0 => format!("(int {})", i),
+            Primitive::PositiveInteger(i) => format!("(int {})", i),
+            Primitive::Number(n) => format!("(num {})", sx::q(&n.to_string())),
+            Primitive::Boolean(b) => format!("(bool {})", b),
+            Primitive::String(s) => format!("(str {})", sx::q(s)),
+            other => format!("(prim {})", sx::q(&other.to_string())),
+        },
+        PreExp::Variable(n) => format!("(var {})", sx::q(n.value())),
+        PreExp::CompoundVariable(c) => list("cvar", &c.name, &c.indexes),
+        PreExp::ArrayAccess(a) => list("access", &a.name, &a.accesses),
+        PreExp::FunctionCall(_, f) => list("call", &f.name, &f.args),
+        PreExp::BlockFunction(b) => list("block", &b.kind.to_string(), &b.exps),
+        PreExp::BlockScopedFunction(b) => format!("(scoped {} {} {})", sx::q(&b.kind.to_string()), iters(&b.iters), pre_exp_full(&b.exp)),
+        PreExp::BinaryOperation(op, l, r) => format!("(bin {} {} {})", sx::binop(**op), pre_exp_full(l), pre_exp_full(r)),
+        PreExp::UnaryOperation(op, x) => format!("(un {} {})", sx::unop(**op), pre_exp_full(x)),
+    }
+}
+fn var_kind(v: &VariableKind) -> String {
+    match v {
+        VariableKind::Single(n) => format!("(single {})", sx::q(n.value())),
+        VariableKind::Tuple(ns) => format!("(tuple{})", ns.iter().map(|n| format!(" {}", sx::q(n.value()))).collect::<String>()),
+    }
+}
+pub fn iters(its: &[IterableSet]) -> String {
+    let mut s = String::from("(its");
+    for i in its { s.push_str(&format!(" (it {} {})", var_kind(&i.var), pre_exp_full(i.iterator.value()))); }
+    s.push(')');
+    s
+}
+fn variable(v: &Variable) -> String {
+    match v {
+        Variable::Variable(n) => format!("(v {})", sx::q(n)),
+        Variable::CompoundVariable(c) => {
+            let mut s = format!("(cv {}", sx::q(&c.name));
+            for a in &c.indexes { s.push(' '); s.push_str(&pre_exp_full(a)); }
+            s.push(')');
+            s
+        }
+    }
+}
+fn opt_exp(e: &Option<PreExp>) -> String { match e { Some(e) => pre_exp_full(e), None => "none".into() } }
+fn pre_var_type(t: &PreVariableType) -> String {
+    match t {
+        PreVariableType::Boolean => "bool".into(),
+        PreVariableType::NonNegativeReal(a, b) => format!("(nnreal {} {})", opt_exp(a), opt_exp(b)),
+        PreVariableType::Real(a, b) => format!("(real {} {})", opt_exp(a), opt_exp(b)),
+        PreVariableType::IntegerRange(a, b) => format!("(intrange {} {})", pre_exp_full(a), pre_exp_full(b)),
+    }
+}
+pub fn pre_constraint(c: &PreConstraint) -> String {
+    format!("(c {} {} {} {} {} {})",
+        match &c.name_exp { Some(n) => variable(n.value()), None => "none".into() },
+        pre_exp_full(&c.lhs), sx::cmp(c.constraint_type), pre_exp_full(&c.rhs), c.is_logic_assertion, iters(&c.iteration))
+}
+fn domain_decl(d: &VariablesDomainDeclaration) -> String {
+    let mut s = String::from("(dom (vars");
+    for v in d.variables() { s.push(' '); s.push_str(&variable(v.value())); }
+    s.push_str(&format!(") {} {})", pre_var_type(d.get_type()), iters(d.iteration())));
+    s
+}
+pub fn pre_model(m: &PreModel) -> String {
+    let o = m.objective();
+    let kind = match o.objective_type { OptimizationType::Min => "min", OptimizationType::Max => "max", OptimizationType::Satisfy => "solve" };
+    let mut s = format!("(premodel (obj {} {}) (constraints", kind, pre_exp_full(&o.rhs));
+    for c in m.constraints() { s.push(' '); s.push_str(&pre_constraint(c)); }
+    s.push_str(") (consts");
+    for k in m.constants() { s.push_str(&format!(" (let {} {})", sx::q(k.name.value()), pre_exp_full(&k.value))); }
+    s.push_str(") (domains");
+    for d in m.domains() { s.push(' '); s.push_str(&domain_decl(d)); }
+    s.push_str("))");
+    s
+}
+#[allow(dead_code)]
+pub fn cmp_text(c: Comparison) -> &'static str { sx::cmp(c) }
